@@ -329,7 +329,7 @@ func TestC17Lab(t *testing.T) {
 	}
 	Explore(os17Test(), rep, runs)
 	if n, _ := rep.Extra["dials"].(int64); n == 0 {
-		core.HarnessError("vacuous: the client never dialled")
+		rep.Vacuous("vacuous: the client never dialled")
 	}
 	rep.Finish()
 }
